@@ -189,7 +189,10 @@ Qed.
 (* what the round trip needs to know about an anchor / a float: the library maps its printed form back to it *)
 Definition time_ok (O : oracles) (t : time) : Prop :=
   o_parse_time O (o_fmt_time O t) = Some t /\ o_fmt_time O t <> [] /\
-  forallb (fun c => memb c time_alphabet) (o_fmt_time O t) = true.
+  forallb (fun c => memb c time_alphabet) (o_fmt_time O t) = true /\ (t_off t mod 60 = 0)%Z.
+
+Lemma norm_anchor_ok : forall O t, time_ok O t -> norm_anchor t = t.
+Proof. intros O t [_ [_ [_ H]]]. unfold norm_anchor. rewrite H. reflexivity. Qed.
 Definition float_ok (O : oracles) (b : N) : Prop :=
   o_parse_float O (o_fmt_float O b) = Some b /\ ~ In x0a (o_fmt_float O b).
 
@@ -332,18 +335,18 @@ Section WithOracles2.
 Variable O : oracles.
 Hypothesis Q : quote_laws O.
 
-Definition anchor_text (p : pred) : str := match panchor p with None => [] | Some t => o_fmt_time O t end.
+Definition anchor_text (p : pred) : str := match panchor p with None => [] | Some t => o_fmt_time O (norm_anchor t) end.
 
 Lemma time_alpha_no : forall t c, time_ok O t -> memb c time_alphabet = false -> ~ In c (o_fmt_time O t).
 Proof.
-  intros t c Ht Hc Hin. destruct Ht as [_ [_ Ha]].
+  intros t c Ht Hc Hin. destruct Ht as [_ [_ [Ha _]]].
   rewrite forallb_forall in Ha. specialize (Ha _ Hin). congruence.
 Qed.
 
 Lemma anchor_text_no : forall p c, gdom_pred O p -> memb c time_alphabet = false -> ~ In c (anchor_text p).
 Proof.
   intros p c Hd Hc. unfold anchor_text. destruct Hd as [_ Hd].
-  destruct (panchor p) as [t|]; [apply time_alpha_no; assumption | intros H; destruct H].
+  destruct (panchor p) as [t|]; [rewrite (norm_anchor_ok O t Hd); apply time_alpha_no; assumption | intros H; destruct H].
 Qed.
 
 Lemma print_pred_shape : forall p, exists m,
@@ -401,7 +404,8 @@ Proof.
   destruct Hd as [Hid Ha]. unfold wf_pred in Hid.
   destruct p as [id a]. cbn [pid panchor] in *. destruct id as [|i0 id']; [discriminate|].
   unfold ft, anchor_text. cbn [panchor]. destruct a as [t|]; [|reflexivity].
-  destruct Ha as [Hrt [Hne Halpha]].
+  rewrite (norm_anchor_ok O t Ha).
+  destruct Ha as [Hrt [Hne [Halpha _]]].
   destruct (o_fmt_time O t) as [|c0 r] eqn:Eft; [contradiction|].
   rewrite at_index_0. cbn [idx].
   assert (Hc0 : Byte.eqb c0 c_quote = false).
